@@ -101,6 +101,9 @@ struct World {
     std::vector<char> writerAppending;
     std::vector<int> genKey;          ///< per generation: key index or -1 (not set yet)
     std::vector<unsigned> genKeyedAt; ///< per generation: clock when its key was set (0 = not yet)
+    /// per generation: closeForUpdating() spliced this generation's chain suffix (everything after
+    /// its first slice) into / from another edition, so that suffix is owned by two anchors
+    std::vector<char> genSuffixShared;
     std::vector<char> genIsFresh;     ///< per generation: created by openForUpdating() as the fresh edition
     std::vector<unsigned> genUpdateClosedAt; ///< fresh editions: clock when closeForUpdating() returned (0 = not yet)
     std::vector<ReaderRec> readers;
@@ -155,6 +158,20 @@ struct World {
         return std::string(what) + " by P" + std::to_string(me) + " anchor " + std::to_string(fileno) + " generation " + std::to_string(fileno >= 0 ? genOf[fileno] : -1);
     }
 
+    /// Known finding (closeForUpdating() shares the chain suffix between the stale and the fresh
+    /// edition under independent locks): does this reader hold an edition that took part in such
+    /// a splice, and is the slice in the shared part of its chain (after the first slice)?  A
+    /// reader may have locked the stale anchor before the harness could register it (an updater
+    /// inside openForUpdating()), so the per-slice marker alone is not enough.
+    bool inUpdateSharedSuffix(const ReaderRec &r, SliceId s) const
+    {
+        if (suffixOfStaleGen[s] >= 0) return true;
+        if (r.gen < 0 || !genSuffixShared[r.gen]) return false;
+        for (size_t i = 1; i < r.chain.size(); ++i)
+            if (r.chain[i].first == s) return true;
+        return false;
+    }
+
     // ---- slice allocator (the caller's job in Squid)
     SliceId takeSlice(int me)
     {
@@ -169,7 +186,7 @@ struct World {
         for (const auto &r : readers)
             for (const auto &c : r.chain)
                 if (c.first == s)
-                    Sched::failRun(suffixOfStaleGen[s] >= 0 ? "update-shared-slice-freed-while-reader-holds-entry" : "slice-reused-while-reader-holds-entry",
+                    Sched::failRun(inUpdateSharedSuffix(r, s) ? "update-shared-slice-freed-while-reader-holds-entry" : "slice-reused-while-reader-holds-entry",
                                    "slice " + std::to_string(s) + " handed to P" + std::to_string(me) + " while P" + std::to_string(r.proc) + " reads anchor " + std::to_string(r.fileno) + " generation " + std::to_string(r.gen));
         sliceTag[s] = nextTag++;
         suffixOfStaleGen[s] = -1;
@@ -183,7 +200,7 @@ struct World {
         for (const auto &r : readers)
             for (const auto &c : r.chain)
                 if (c.first == s)
-                    Sched::failRun(suffixOfStaleGen[s] >= 0 ? "update-shared-slice-freed-while-reader-holds-entry" : "slice-freed-while-reader-holds-entry",
+                    Sched::failRun(inUpdateSharedSuffix(r, s) ? "update-shared-slice-freed-while-reader-holds-entry" : "slice-freed-while-reader-holds-entry",
                                    "slice " + std::to_string(s) + " freed while P" + std::to_string(r.proc) + " reads anchor " + std::to_string(r.fileno) + " generation " + std::to_string(r.gen));
         sliceTag[s] = 0; // suffixOfStaleGen[s] is kept until the slice is handed out again
         pool.push_back(s);
@@ -197,6 +214,7 @@ struct World {
         genKeyedAt.push_back(0);
         genIsFresh.push_back(0);
         genUpdateClosedAt.push_back(0);
+        genSuffixShared.push_back(0);
         (void)key;
         return g;
     }
@@ -323,7 +341,10 @@ struct World {
             for (const auto &c : was) d += " " + std::to_string(c.first) + "#" + std::to_string(c.second);
             d += " now:";
             for (const auto &c : now) d += " " + std::to_string(c.first) + "#" + std::to_string(c.second);
-            Sched::failRun("entry-changed-under-reader", d);
+            size_t firstDiff = 0;
+            while (firstDiff < was.size() && firstDiff < now.size() && now[firstDiff] == was[firstDiff]) ++firstDiff;
+            const bool shared = firstDiff >= 1 && readers[idx].gen >= 0 && genSuffixShared[readers[idx].gen];
+            Sched::failRun(shared ? "update-shared-slice-freed-while-reader-holds-entry" : "entry-changed-under-reader", d);
         }
         readers.erase(readers.begin() + static_cast<long>(idx));
     }
@@ -435,6 +456,8 @@ struct World {
         {
             // everything after the stale prefix is about to be shared with the fresh edition
             const int staleGen = genOf[staleNo];
+            genSuffixShared[staleGen] = 1;
+            genSuffixShared[g] = 1;
             for (const auto &r : readers)
                 if (r.proc == me && r.fileno == staleNo)
                     for (size_t i = 1; i < r.chain.size(); ++i) suffixOfStaleGen[r.chain[i].first] = staleGen;
